@@ -79,6 +79,21 @@ fn c08_block16_affine() {
     assert!(lhs == rhs);
 }
 
+/// Same statement in the cheaper two-operand form:
+/// F(x ^ y) ^ F(0) == F(x) ^ F(y) for all x, y  <=>  F is GF(2)-affine.
+#[kani::proof]
+#[kani::unwind(17)]
+fn c08_block16_affine2() {
+    let (s1, s2): (u32, u32) = (kani::any(), kani::any());
+    let d1: [u8; 16] = kani::any();
+    let d2: [u8; 16] = kani::any();
+    let z = [0u8; 16];
+    let d = xor16(&d1, &d2, &z);
+    let lhs = real_update(s1 ^ s2, &d) ^ real_update(0, &z);
+    let rhs = real_update(s1, &d1) ^ real_update(s2, &d2);
+    assert!(lhs == rhs);
+}
+
 /// The reference (16 bitwise byte steps) is affine too. Reference-only lemma.
 #[kani::proof]
 #[kani::unwind(17)]
